@@ -1597,4 +1597,8 @@ def classify_cache_select(e: ast.expr, param: Optional[str]) -> Tuple[str, str]:
         return 'bad', 'the supplied mapping is ignored'
     if is_param(e):
         return 'unknown', 'parameter used directly'
+    if isinstance(e, ast.Call) and isinstance(e.func, ast.Name) and e.func.id[:1] == '_' and e.func.id[1:2].isupper() and any(
+            isinstance(x, ast.Name) and x.id == param for a_ in e.args for x in ast.walk(a_)):
+        return 'bad', (f'the selected mapping is wrapped in {e.func.id}(...): a view / adaptor with a memory of its own stands between the wrapper and '
+                       'the caller\'s mapping - what the caller evicts from the mapping it owns can still be served, so the mapping is not the only store')
     return 'unknown', 'unrecognised selection of the cache mapping'
